@@ -1,0 +1,57 @@
+//go:build verif
+// +build verif
+
+package listener
+
+import (
+	"io"
+	"net"
+)
+
+// Access for the verification harness (build tag verif only; property C19).
+// Nothing here changes behaviour: the helpers only expose unexported pieces.
+
+// VerifNewFromListener is New over a caller-supplied root listener (no net.Listen, no TLS),
+// so that the harness can feed scripted in-memory connections to Serve.
+func VerifNewFromListener(l net.Listener) *Listener {
+	return &Listener{
+		root:            l,
+		bufferSize:      1024,
+		errorHandler:    func(_ error) bool { return true },
+		closing:         make(chan struct{}),
+		readTimeout:     noTimeout,
+		settingsHandler: func(_ net.Conn) {},
+	}
+}
+
+// VerifPatricia builds the patricia tree of bs and returns its two matchers
+// (prefix mode, exact mode) and its maxDepth.
+func VerifPatricia(bs ...[]byte) (matchPrefix, match func(io.Reader) bool, maxDepth int) {
+	pt := newPatriciaTree(bs...)
+	return pt.matchPrefix, pt.match, pt.maxDepth
+}
+
+// VerifSplitPrefix exposes splitPrefix.
+func VerifSplitPrefix(bss [][]byte) ([]byte, [][]byte) { return splitPrefix(bss) }
+
+// VerifConn exposes the sniffing wrapper around a connection.
+type VerifConn struct{ c *Conn }
+
+// VerifNewConn wraps c exactly as Listener.serve does.
+func VerifNewConn(c net.Conn) *VerifConn { return &VerifConn{newConn(c)} }
+
+// StartSniffing is (*Conn).startSniffing.
+func (v *VerifConn) StartSniffing() io.Reader { return v.c.startSniffing() }
+
+// DoneSniffing is (*Conn).doneSniffing.
+func (v *VerifConn) DoneSniffing() { v.c.doneSniffing() }
+
+// Conn returns the wrapped connection as handed to a service.
+func (v *VerifConn) Conn() net.Conn { return v.c }
+
+// State reports the sniffer's bookkeeping: buffered length, bufferRead, bufferSize,
+// sniffing flag and whether Conn.Read already bypasses the sniffer.
+func (v *VerifConn) State() (buffered, bufferRead, bufferSize int, sniffing, direct bool) {
+	s := &v.c.sniffer
+	return s.buffer.Len(), s.bufferRead, s.bufferSize, s.sniffing, v.c.reader != io.Reader(s)
+}
